@@ -271,15 +271,20 @@ def run_property(prop, tier, repo="/repo", quiet=False, write_evidence=True, sco
         else:
             new.append(v)
     replay_dir = os.path.join(VERIF, "evidence", "replay")
-    os.makedirs(replay_dir, exist_ok=True)
-    for old in os.listdir(replay_dir):
-        if old.startswith(prop + "-"):
-            os.unlink(os.path.join(replay_dir, old))
+    if write_evidence:
+        os.makedirs(replay_dir, exist_ok=True)
+        for old in os.listdir(replay_dir):
+            if old.startswith(prop + "-"):
+                try:
+                    os.unlink(os.path.join(replay_dir, old))
+                except FileNotFoundError:
+                    pass
     for n, v in enumerate(new, 1):
         rp = os.path.join(replay_dir, "%s-%d.json" % (prop, n))
-        with open(rp, "w") as fh:
-            json.dump({"property": prop, "rule": v.rule, "key": v.key, "kind": v.kind, "message": v.message,
-                       "loc": v.loc, "path": v.path, "facts_hash": info.get("tree_hash")}, fh, indent=1)
+        if write_evidence:     # variant self-tests (tools/mutate.py) analyse scratch copies and leave /verif/evidence alone
+            with open(rp, "w") as fh:
+                json.dump({"property": prop, "rule": v.rule, "key": v.key, "kind": v.kind, "message": v.message,
+                           "loc": v.loc, "path": v.path, "facts_hash": info.get("tree_hash")}, fh, indent=1)
         lines.append("%s %s %s in %s: %s" % (v.loc or "-", v.rule, v.kind, v.fn_key, v.message))
         if v.path:
             lines.append("   path: %s" % v.path)
